@@ -136,7 +136,7 @@ Proof.
     + rewrite E1. exists r. split; [reflexivity|]. split; [exact Oy|].
       assert (VL : ver (d_hlv y) <= value (d_hlv r) (src (d_hlv y))).
       { pose proof (st_ge_i _ _ _ _ _ _ St (src (d_hlv y)) (okv_src _ _ Oy)) as G. rewrite (value_own _ (okv_src _ _ Oy)) in G. exact G. }
-      destruct (st_kind _ _ _ _ _ _ St) as [[C _] | [[x [X [C [_ [Dl [Dn [Ne Tb]]]]]]] | [C [L Dl]]]].
+      destruct (st_kind _ _ _ _ _ _ St) as [[C _] | [[x [X [C [_ [Dl [Dn [Ne Tb]]]]]]] | [C L]]].
       * repeat split; auto.
       * split; [right; rewrite C; exact Dn|]. split; [exact VL|]. intros _. right. rewrite C. exact Dn.
       * assert (F : dominates (d_hlv y) (cv (d_hlv r)) = false).
@@ -245,7 +245,7 @@ Proof.
         apply equal_cv_spec in IC. rewrite <- IC in D. rewrite dominates_own_cv in D; [discriminate|].
         eapply okv_src. eapply (ci_ok s I); eauto.
       * destruct (KC Kp) as [F _]. discriminate.
-    + rewrite E1. destruct (st_kind _ _ _ _ _ _ St) as [[C [B Dl]] | [[x [X [_ [_ [_ [Dn _]]]]]] | [C [L _]]]].
+    + rewrite E1. destruct (st_kind _ _ _ _ _ _ St) as [[C [B Dl]] | [[x [X [_ [_ [_ [Dn _]]]]]] | [C L]]].
       * apply vobs_adopted; auto.
       * rewrite (KN x y X eq_refl) in Dn. discriminate.
       * (* a merge needs a conflict *) exfalso.
